@@ -1,6 +1,7 @@
 package node
 
 import (
+	"crypto/ed25519"
 	"encoding/json"
 	"errors"
 	"fmt"
@@ -53,8 +54,18 @@ func GetAdaptedReDKG(originalDKG *types.ReDKG) (*types.ReDKG, error) {
 	adaptedReDKG.Messages = []storage.Message{}
 	var newOffset uint64
 	fixedSenders := map[string]struct{}{}
+	// A dump holds whatever was posted to the board: only a deal line that carries its sender's
+	// signature (under the key registered in the proposal) is that sender's deal.
+	oldCommKeys := map[string]ed25519.PublicKey{}
+	for _, p := range originalDKG.Participants {
+		oldCommKeys[p.Name] = p.OldCommPubKey
+	}
+	signedBySender := func(m storage.Message) bool {
+		key, ok := oldCommKeys[m.SenderAddr]
+		return ok && len(key) == ed25519.PublicKeySize && m.Verify(key)
+	}
 	for _, m := range originalDKG.Messages {
-		if _, found := fixedSenders[m.SenderAddr]; !found && fsm.Event(m.Event) == dkg_proposal_fsm.EventDKGDealConfirmationReceived {
+		if _, found := fixedSenders[m.SenderAddr]; !found && fsm.Event(m.Event) == dkg_proposal_fsm.EventDKGDealConfirmationReceived && signedBySender(m) {
 			fixedSenders[m.SenderAddr] = struct{}{}
 			workAroundMessage, err := createMessage(m)
 			if err != nil {
